@@ -88,6 +88,9 @@ pub struct Hist {
     /// skip the state-level query sweeps in `step` (the caller runs `state_checks` itself)
     pub light: bool,
     pub resyncs: u32,
+    /// Miri mode: only drive the calls (incl. hold-all-then-write patterns) and keep the model in
+    /// step; the functional oracles run natively
+    pub fast: bool,
 }
 
 fn owners_of_oracle_panic(msg: &str) -> &'static [&'static str] {
@@ -114,7 +117,7 @@ impl Hist {
     pub fn new(mut w: Box<dyn WorldApi>, prop: &str, is_set: bool, g: Gen, replay: serde_json::Value) -> Hist {
         w.reset(2, 2);
         let (slot, scratch) = if is_set { (Slot::Set(0), Slot::Set(1)) } else { (Slot::Map(0), Slot::Map(1)) };
-        Hist { w, slot, scratch, m: Model::new(), g, f: Flags::for_prop(prop), prop: prop.to_string(), canonical: true, recent: VecDeque::new(), step_no: 0, replay, sweep_every: 1, hw_reach: 1, is_set, light: false, resyncs: 0 }
+        Hist { w, slot, scratch, m: Model::new(), g, f: Flags::for_prop(prop), prop: prop.to_string(), canonical: true, recent: VecDeque::new(), step_no: 0, replay, sweep_every: 1, hw_reach: 1, is_set, light: false, resyncs: 0, fast: false }
     }
 
     fn replay_info(&self) -> serde_json::Value {
@@ -162,7 +165,7 @@ impl Hist {
         }
         self.recent.push_back(format!("{:?}", op));
         let pre = self.m.clone();
-        let needs_shape = true;
+        let needs_shape = !self.fast || matches!(op, Op::ViewMut(..));
         let pre_shape = if needs_shape {
             match guarded(|| self.w.shape(self.slot)) {
                 Ok(s) => s,
@@ -225,6 +228,13 @@ impl Hist {
                 ret_owner = self.f.ret || (self.f.muta && is_write_op(op)) || (self.f.child && matches!(op, Op::Retain(..) | Op::RemoveChildren(_))) || (self.f.repr && matches!(op, Op::Entry(..)));
                 self.model_step(ev, op, r, &pre, &pre_shape, &mut bad, &mut wrote);
             }
+        }
+        if self.fast {
+            if !bad.is_empty() {
+                ev.count("fast/call_level_mismatch_ignored", 1);
+            }
+            ev.hash(self.m.hash());
+            return Flow::Continue;
         }
         match op_is_canonical(op, &pre) {
             None => self.canonical = true,
